@@ -114,6 +114,7 @@ type Frame struct {
 	stack       []*ssa.Function
 	retVals     []Val // at exit, for ensures
 	loopHdr     *ssa.BasicBlock
+	loopEntry   map[*ssa.BasicBlock]*State // state in which each loop header was first reached
 	curBlock    *ssa.BasicBlock
 	names       map[string]ssa.Value // source name -> unique SSA value (from DebugRef)
 	ambig       map[string]bool
@@ -572,6 +573,10 @@ func (e *Enc) execFunc(fr *Frame, st *State, reach Term) ([]Val, *State, Term) {
 			}
 			invs := e.loopInvs(fr, loopOrd[b])
 			fr.loopHdr = b
+			if fr.loopEntry == nil {
+				fr.loopEntry = map[*ssa.BasicBlock]*State{}
+			}
+			fr.loopEntry[b] = cur
 			for k, inv := range invs {
 				f := e.evalBool(fr, inv.Expr, cur, fr.entry, inv)
 				e.ob(fr, "inv.establish", fmt.Sprintf("loop%d.inv.establish#%d", loopOrd[b], k), rb, f, inv.Src, b.Instrs[0].Pos())
@@ -970,25 +975,11 @@ func (e *Enc) returnAsserts(fr *Frame, ret *ssa.Return, vals []Val, st *State, r
 	if !has {
 		return
 	}
-	var all []*ssa.Return
-	for _, b := range fr.fn.Blocks {
-		for _, in := range b.Instrs {
-			if r, ok := in.(*ssa.Return); ok {
-				all = append(all, r)
-			}
-		}
-	}
-	sort.SliceStable(all, func(i, j int) bool { return all[i].Pos() < all[j].Pos() })
-	ord := 0
-	for i, r := range all {
-		if r == ret {
-			ord = i + 1
-		}
-	}
 	for k, ca := range fr.contract.Asserts {
-		if ca.Kind != "return" || ca.N != ord {
+		if ca.Kind != "return" || !e.matchCut(fr.fn, ca, ret) {
 			continue
 		}
+		ord := ca.N
 		saved := fr.retVals
 		fr.retVals = vals
 		f, watch := e.evalBoolWatch(e.hostEnv(fr), ca.Clause.Expr, st, fr.entry, ca.Clause)
